@@ -117,7 +117,7 @@ let () = iter_lines (fun line ->
         Buffer.add_string buf (" | m " ^ zs s.mutCount);
         if s.columns <> [] then
           for o = 0 to int_of_z s.totalSize - 1 do
-            if is_mutable s (z_of_int o) then Buffer.add_string buf (Printf.sprintf " %d" o)
+            if Gen_Bits.coq_GetBit s.mutBytes (z_of_int o) then Buffer.add_string buf (Printf.sprintf " %d" o)   (* the generated GetBit *)
           done
       ) !ops;
       Buffer.add_string buf " ; raw ok ; ev n:";
@@ -131,6 +131,28 @@ let () = iter_lines (fun line ->
       for k = 0 to cnt - 1 do
         Buffer.add_string buf (Printf.sprintf " | %d:" k);
         let (t, _) = RawLife.create_raw_idx ngr (Some (nat_of_int k)) !groups (nat_of_int 0) in show t
+      done;
+      (* createFunc / destroyFunc counts per FuncRecord: the GENERATED pvCreateRaw (Gen_Raw.v); record ids = indices; the schedule
+         lets the createFunc call of the group that holds the k-th instrumented column throw *)
+      Buffer.add_string buf " ; fr ";
+      let ng = Stdlib.List.length !groups in
+      let idarr = (fun i -> i) and zero = (fun _ -> z_of_int 0) in
+      let group_of k = (* index of the group containing the k-th instrumented column *)
+        let rec go gi seen = function
+          | [] -> ng
+          | g :: tl -> let m = Stdlib.List.length g in if k < seen + m then gi else go (gi + 1) (seen + m) tl in
+        go 0 0 !groups in
+      for k = -1 to cnt - 1 do
+        let g = if k < 0 then -1 else group_of k in
+        let sched = (fun c -> g >= 0 && int_of_z c = g) in
+        Buffer.add_string buf (if k < 0 then "n:" else Printf.sprintf " | %d:" k);
+        (match Gen_Raw.pvCreateRaw (z_of_int ng) idarr (z_of_int 0) zero zero sched with
+         | GenPrelude.Ok (((completed, _), created), destroyed) ->
+           Buffer.add_string buf (if completed then "T c" else "F c");
+           for i = 0 to ng - 1 do Buffer.add_string buf (" " ^ zs (created (z_of_int i))) done;
+           Buffer.add_string buf " d";
+           for i = 0 to ng - 1 do Buffer.add_string buf (" " ^ zs (destroyed (z_of_int i))) done
+         | _ -> Buffer.add_string buf "STUCK")
       done;
       if failing then Buffer.add_string buf " ; af ok";
       print_endline (Buffer.contents buf)
